@@ -15,6 +15,11 @@ func init() {
 			fns := m.reachableFns(r.Render)
 			ac := m.newAssertChecker(s)
 			ac.Run("R-ASSERT", fns)
+			bc := m.newBoundsChecker(s)
+			bc.Run("R-BOUNDS", "R-DIVGUARD", fns)
+			m.RunNilField(s, "R-NILFIELD", fns)
+			m.RunPanicCall(s, "R-PANICCALL", fns)
+			m.RunNilObj(s, "R-NILOBJ", fns)
 		},
 	})
 }
